@@ -140,6 +140,24 @@ def monitor_real_graders(ctx):
         ('MatrixSuppressed', lambda **kw: MatrixGrader(suppress_matrix_messages=True, **kw), ['[1,2]', '[3,4]', '[[1,0],[0,1]]'], ['[1,2]', '[3,4]', '[1,2,3]', '[[1,0],[0,1]]', '5', '[[1,2]]']),
         ('MatrixNoShapeErr', lambda **kw: MatrixGrader(shape_errors=False, **kw), ['[1,2]', '[3,4]'], ['[1,2]', '[1,2,3]', '7', '[3,4]']),
     ]
+    # fixed scenario for every leaf grader: a zero-credit alternative with its own SHORT feedback, a LONG generic wrong_msg, one grader object
+    # that first sees a submission matching nothing and then the one matching the zero-credit alternative (specific feedback must win)
+    for name, mk, exps, inps in specs:
+        alts0 = ({'expect': exps[0], 'grade_decimal': 1}, {'expect': exps[1], 'grade_decimal': 0, 'msg': 'no!'}, {'expect': exps[2 % len(exps)], 'grade_decimal': 0.5, 'msg': 'half'})
+        wrong0 = 'Try again, that is not one of the expected answers'
+        try:
+            g0 = mk(answers=alts0, wrong_msg=wrong0)
+        except Exception:
+            continue
+        nomatch = '[9,9]' if name.startswith('Matrix') else ('12345' if name in ('Formula', 'Numerical') else 'zzz')
+        for inp in [nomatch, exps[1], exps[0], exps[1], nomatch, exps[2 % len(exps)], exps[1]]:
+            k1, r1 = GG.run_impl(lambda: g0(None, inp))
+            k2, r2 = GG.run_impl(lambda: mk(answers=alts0, wrong_msg=wrong0)(None, inp))
+            ctx.contract_checks += 1
+            if (k1, r1 if k1 == 'err' else GG.canon_result(r1)) != (k2, r2 if k2 == 'err' else GG.canon_result(r2)):
+                ctx.violation('a grader that has already graded other submissions answers differently from a fresh one (real %s grader, fixed scenario)' % name,
+                              {'monitor': name, 'answers': list(alts0), 'wrong_msg': wrong0, 'input': inp}, impl=r1 if k1 == 'err' else GG.canon_result(r1), expected=r2 if k2 == 'err' else GG.canon_result(r2))
+                break
     for it in range(ctx.scale(60, 1200)):
         name, mk, exps, inps = specs[it % len(specs)]
         n = rng.randint(1, 4)
@@ -155,6 +173,16 @@ def monitor_real_graders(ctx):
         except Exception:
             ctx.count('monitor:config_rejected'); continue
         perms = list(itertools.permutations(range(n)))[:6]
+        # ONE grader object serving all the submissions, in a random order with repeats: its verdicts must be those of a fresh grader each time
+        seq = [rng.choice(inps + ['no such answer', 'zzz']) for _ in range(2 * len(inps) + 2)]
+        for inp in seq:
+            k1, r1 = GG.run_impl(lambda: g(None, inp))
+            k2, r2 = GG.run_impl(lambda: mk(answers=tuple(alts), wrong_msg=wrong)(None, inp))
+            ctx.contract_checks += 1
+            if (k1, r1 if k1 == 'err' else GG.canon_result(r1)) != (k2, r2 if k2 == 'err' else GG.canon_result(r2)):
+                ctx.violation('a grader that has already graded other submissions answers differently from a fresh one (real %s grader)' % name,
+                              {'monitor': name, 'answers': alts, 'wrong_msg': wrong, 'input': inp, 'earlier': seq[:seq.index(inp)][-4:]}, impl=r1 if k1 == 'err' else GG.canon_result(r1), expected=r2 if k2 == 'err' else GG.canon_result(r2))
+                break
         for inp in inps:
             alone = []
             for a in alts:
